@@ -41,8 +41,14 @@ def main(args):
         a = digests(prop, seed, idx)
         b = digests(prop, seed, idx)
         env = dict(os.environ, PYTHONHASHSEED="12345")
-        p = subprocess.run([sys.executable, os.path.join(here, "vcheck.py"), "selftest-determinism", "--child", prop, str(seed), json.dumps(idx)],
-                           capture_output=True, text=True, env=env, timeout=1800)
+        for attempt in range(3):
+            p = subprocess.run([sys.executable, os.path.join(here, "vcheck.py"), "selftest-determinism", "--child", prop, str(seed), json.dumps(idx)],
+                               capture_output=True, text=True, env=env, timeout=1800)
+            if p.returncode >= 0:
+                break
+            # killed by a signal: the interpreter crashes listed as dependency findings (pyppmd) also hit this child; a child that
+            # did not finish has no digests to compare, so it is run again
+            print("%s: fresh interpreter died with signal %d before printing its digests (attempt %d) - run again" % (prop, -p.returncode, attempt + 1))
         line = [ln for ln in p.stdout.splitlines() if ln.startswith("DIGESTS ")]
         c = json.loads(line[0][8:]) if line else {}
         diff_same = [i for i in a if a[i] != b[i]]
